@@ -255,7 +255,7 @@ class Main(Suite):
     name = "main"
     go_cmd = "c15"
     coq_imports = "From GoGit Require Import Model.RefStore."
-    quick_n = 170
+    quick_n = 120
     thorough_n = 6000
     coq_chunk = 25
 
@@ -336,6 +336,7 @@ class Main(Suite):
                     if not df_conflict(ever, name):
                         return where + ": refused by the filesystem without any directory/file conflict in the history", m, tags
                     continue
+                ever.add(name)          # the file (possibly empty) and its directories exist from here on
                 if old is None:
                     want = "( ok )"
                 else:
